@@ -27,7 +27,7 @@ ASSUMPTIONS = [
     "only worklist methods touch the labware (the property replays records from the initial contents)",
     "an operation that fails earlier than intended, or not at all, is still checked (the invariants hold for every prefix)",
 ]
-BUDGET = {"quick": (4, 300), "thorough": (16, 3000)}
+BUDGET = {"quick": (4, 450), "thorough": (16, 3000)}
 KNOWN_KINDS = {}
 REQUIRED_CLASSES = [
     "fail:limit:raised", "fail:oversize:raised", "fail:late:raised",
@@ -61,9 +61,11 @@ def _case(draw, stratum):
     for i in range(n):
         kind = draw(st.sampled_from(["plate", "trough"])) if i == 0 else draw(st.sampled_from(["plate", "plate", "trough"]))
         regime = draw(st.sampled_from(["roomy", "tight", "tight"]))
+        if stratum[1] == "oversize":
+            regime = "roomy"  # the labware must be able to supply / take an oversized step, otherwise the volume check refuses first
         if i == 0 and stratum[0] == "distribute":
             kind, regime = "trough", draw(st.sampled_from(["roomy", "roomy", "tight"]))  # a supply trough
-        labs.append(draw(lab_spec(names[i], kind=kind, max_rows=8, max_cols=8 if kind == "plate" else 4, regime=regime, grid=True, allow_names=False, pos=(10 + i, 1 + i), filled=True if i == 0 else None)))
+        labs.append(draw(lab_spec(names[i], kind=kind, max_rows=8, max_cols=8 if kind == "plate" else 4, regime=regime, grid=True, allow_names=False, pos=(10 + i, 1 + i), filled=True if (i == 0 or stratum[1] == "oversize") else None)))
     vs = vs_ok(0.01)
     normal = st.one_of(op_direct(vs, kinds=("aspirate", "dispense")), op_transfer(vs), op_transfer(vs), op_distribute(vs), op_evo(vs))
     ops = draw(st.lists(normal, min_size=0, max_size=8))
@@ -75,8 +77,8 @@ def _case(draw, stratum):
                 "dispense": op_direct(vs, kinds=("dispense",)),
                 "transfer": op_transfer(vs),
                 "distribute": op_distribute(vs),
-                "evo_aspirate": op_evo(vs).map(lambda o: dict(o, op="evo_aspirate")),
-                "evo_dispense": op_evo(vs).map(lambda o: dict(o, op="evo_dispense")),
+                "evo_aspirate": st.one_of(op_evo(vs, min_tips=2), op_evo(vs)).map(lambda o: dict(o, op="evo_aspirate")),
+                "evo_dispense": st.one_of(op_evo(vs, min_tips=2), op_evo(vs)).map(lambda o: dict(o, op="evo_dispense")),
             }[fop]
         )
     )
